@@ -120,7 +120,8 @@ class C16(Check):
             "result fresh, receiver unchanged; result, original and a pluck of the result stay independent under later plain/compound/++ "
             "stores into any of them); num() on numeric and non-numeric spellings vs correctly rounded conversion, incl. every "
             "combination of sign, base prefix (0x 0o 0b), digit separators, exponent letter, padding, and the inf/nan words; every "
-            "method and builtin on every receiver kind with 0-3 arguments of every kind: ok or runtime error, never a crash. "
+            "method and builtin on every receiver kind with 0-3 arguments of every kind: ok or runtime error, never a crash; the receiver "
+            "variable / member / element rebound to every other kind while the call's arguments are evaluated (every method x replacement). "
             "non-trivial = non-empty receiver and a result that differs from it")
 
     # ------------------------------------------------------------ generators
@@ -440,6 +441,49 @@ class C16(Check):
             cases.append(Case(cid, simple_run(cid, prog, [doc]), meta, True))
             k += 1
 
+    def gen_rebind(self, rng, n, cases):
+        """the receiver VARIABLE (or member / element) is rebound to a value of another kind while the arguments of the method call are
+        evaluated: the method then runs on a receiver it was not looked up for. Every method of every prototype x every replacement kind
+        x every way of rebinding: neutral value or runtime error, never a crash (the model says which)"""
+        NATURAL = {"length": ['"abc"', "[1, 2]", "{a: 1}"], "split": ['"a,b"'], "lower": ['"aBc"'], "upper": ['"aBc"'],
+                   "floor": ["2.5", "(-2.5)"], "ceil": ["2.5"], "round": ["2.5", "(-0.5)"],
+                   "push": ["[1, 2]"], "pop": ["[1, 2]"], "popfirst": ["[1, 2]"], "contains": ["[1, 2]"], "sort": ["[2, 1]"], "pluck": ["{a: 1, b: 2}"]}
+        REPL = ['"2.5"', '""', "5", "(-2.5)", "true", "false", "null", "[1]", "[]", "{a: 1}", "{}", "/re/", "say", "unset_var", '"é,x"', "[[1], 2]"]
+        OTHER = ['"abc"', "2.5", "[1, 2]", "{a: 1}", "true", "null"]
+        EXTRA = ["1", '"a"', '","', "null", "[1]"]
+        combos = [(m, r) for m in METHODS for r in REPL]
+        rng.shuffle(combos)
+        for k in range(n):
+            cid = "rb%d" % k
+            m, repl = combos[k % len(combos)]
+            recv = rng.choice(NATURAL[m]) if (k < len(combos) or rng.random() < 0.7) else rng.choice(OTHER)
+            place = rng.choice(["x", "x", "x", "o.k", "a[0]", "$.v", "o.p.q", "a[1][0]"])
+            setup = {"x": "x = %s", "o.k": "o = {k: %s}", "a[0]": "a = [%s]", "$.v": "$.v = %s", "o.p.q": "o = {p: {q: %s}}",
+                     "a[1][0]": "a = [0, [%s]]"}[place] % recv
+            form = rng.randrange(8)
+            if form == 0:
+                args = "%s = %s" % (place, repl)
+            elif form == 1:
+                args = "%s, %s = %s" % (rng.choice(EXTRA), place, repl)
+            elif form == 2:
+                args = "%s = %s, %s" % (place, repl, rng.choice(EXTRA))
+            elif form == 3:
+                args = "rebind(%s)" % repl                        # through a function that assigns the global / the document
+                place, setup = ("x", "x = %s" % recv) if place not in ("x", "$.v") else (place, setup)
+            elif form == 4:
+                args = "(%s = %s) == 1" % (place, repl)
+            elif form == 5:
+                args = "[%s = %s]" % (place, repl)
+            elif form == 6:
+                args = "%s = %s, %s = %s" % (place, rng.choice(REPL), place, repl)
+            else:
+                args = "say(%s = %s)" % (place, repl)
+            rb = "function rebind(v) { %s = v; return 1 }\n" % ("$.v" if place == "$.v" else "x")
+            prog = ('function say(a) { return a }\n' + rb + '{ print "A"\n %s\n print %s.%s(%s)\n print %s\n print "Z" }' % (setup, place, m, args, place))
+            doc = '{"s": "a,b", "n": 2.5, "l": [1, 2], "o": {"k": 1}}'
+            meta = {"fam": "nocrash", "prog": prog, "doc": doc, "what": "receiver %s = %s rebound to %s inside the arguments of .%s()" % (place, recv, repl, m)}
+            cases.append(Case(cid, simple_run(cid, prog, [doc]), meta, True, ["rebind"]))
+
     def generate(self, rng, tier):
         q = tier == "quick"
         cases = []
@@ -452,6 +496,7 @@ class C16(Check):
         self.gen_numforms(rng, 900 if q else 12000, cases)
         self.gen_coerce(rng, 120 if q else 3000, cases)
         self.gen_nocrash(rng, 450 if q else 16000, cases)
+        self.gen_rebind(rng, 420 if q else 6000, cases)
         return cases
 
     # ------------------------------------------------------------ oracle
